@@ -24,6 +24,10 @@
                that path or both operands were first unwrapped through ``__liquid__()`` (which
                both types answer with ``None``).  Decided with the context-sensitive kind
                inference of the exception-escape engine.
+  C16-MISSING  the item getters leave only through KeyError / TypeError / IndexError (the classes
+               ``RenderContext.get*`` turn into the undefined value): explicit raises are of those
+               classes, and the "first pair of a mapping" ``next(...)`` runs only for a non-empty
+               object (side condition shared with the C02 reviewed row).
 Not decided: the rest of the first sentence (a strict render that succeeds equals the default
 render) — value level.
 """
@@ -32,7 +36,7 @@ from __future__ import annotations
 
 import ast
 
-from ..astutil import call_recv, callee_name, calls, text
+from ..astutil import call_recv, callee_name, calls, is_name, text
 from ..core import Result
 from ..model import AnchorMissing, Repo, fold_str_set, walk_no_nested
 
@@ -49,7 +53,7 @@ def _only_raises_undefined(fn) -> bool:
 
 def run(repo: Repo) -> Result:
     res = Result(PID)
-    res.rules = ["C16-STRICT", "C16-DEFAULT", "C16-FALSY", "C16-ENV", "C16-SWALLOW", "C16-RAWEQ"]
+    res.rules = ["C16-STRICT", "C16-DEFAULT", "C16-FALSY", "C16-ENV", "C16-SWALLOW", "C16-RAWEQ", "C16-MISSING"]
     res.explanation = "table agreement between Undefined's implicit-protocol methods and the strict subclasses' overrides"
     res.assumptions = ["the first sentence of the property (equal output on success) is value-level and not decided"]
     und = repo.cls(f"{U}.Undefined")
@@ -194,6 +198,35 @@ def run(repo: Repo) -> Result:
     if n_h < 6:
         raise AnchorMissing(f"only {n_h} handlers that can catch UndefinedError found (routers in parser/template expected)")
     _check_raweq(repo, res)
+    # ---- C16-MISSING: a path segment that is not there is a *missing path*, not an error ---------
+    # ``RenderContext.get*`` turn KeyError / TypeError / IndexError from the item getters into the
+    # configured undefined value (C14-UNDEF).  So the item getters may leave only through those
+    # classes: every explicit ``raise`` in them is of one of the three (or a bare re-raise inside a
+    # handler of the three), and ``next(<iterator over the object>)`` — the "first pair of a
+    # mapping" case — runs only where the object is known to be non-empty (no StopIteration).
+    from .c02 import mapping_first_unguarded
+
+    CONVERTED = {"KeyError", "TypeError", "IndexError"}
+    for f_, ln, why in mapping_first_unguarded(repo):
+        res.add("C16-MISSING", f_.qual, "first-of-empty-mapping", f"{f_.qual}: {why}: `.first` of an empty mapping raises StopIteration (RuntimeError under asyncio) out of render instead of resolving to the undefined value", f_.file, ln)
+    rc = repo.cls("liquid.context.RenderContext")
+    for m in ("get_item", "get_item_async"):
+        g_ = repo.own_method("liquid.context.RenderContext", m)
+        fns = [g_] + [rc.methods[c.func.attr] for c in ast.walk(g_.node) if isinstance(c, ast.Call) and isinstance(c.func, ast.Attribute) and is_name(c.func.value, "self") and c.func.attr.startswith("_") and c.func.attr in rc.methods]
+        n_r = 0
+        for f_ in {x.qual: x for x in fns}.values():
+            for r in ast.walk(f_.node):
+                if isinstance(r, ast.Raise):
+                    n_r += 1
+                    if r.exc is None:
+                        continue
+                    cls_ = r.exc.func if isinstance(r.exc, ast.Call) else r.exc
+                    nm = text(cls_).split(".")[-1]
+                    if nm not in CONVERTED:
+                        res.add("C16-MISSING", f_.qual, f"raises:{nm}", f"{f_.qual} raises {nm}, which RenderContext.get does not turn into the undefined value: the default undefined type raises for this missing path", f_.file, r.lineno)
+        res.ob(f"missing:{g_.qual}", max(1, n_r))
+        if n_r < 1:
+            raise AnchorMissing(f"{g_.qual}: no raise statement found in the getter or its private helpers; re-derive C16-MISSING")
     return res
 
 
